@@ -41,6 +41,7 @@ META = {
                   "strings: lower-casing and '__' splitting of DASK_* names are done by the harness when it spells the "
                   "variable). Not decided: the global config object and its lock, threads, non-LIFO exits, deprecated-key "
                   "renaming, YAML collection, kind conflicts (scalar vs mapping) under priority='old' (don't-care), "
+                  "whether a set through a scalar prefix must raise (if it does not, get-sees-set and exit-restores still bind), "
                   "environments whose variables are prefixes of each other (order unspecified).",
 }
 
@@ -187,8 +188,23 @@ def replay_state(case):
     if last["op"] == "fail":
         obj, ex = do_set(d, last["asgs"])
         if ex is None:
-            return [("SKIP", "set into a scalar prefix did not raise (result unspecified)", None)]
-        if d != to_py(cur):
+            # The code accepts a call the transcription rejects (dotted path through a scalar).  That is no
+            # alarm by itself, but the policy-free clauses still bind: get sees the set values, and leaving
+            # the context restores the entry configuration.
+            for i in last["vis"]:
+                a = last["asgs"][i - 1]
+                for p in (a["p"], [alt(k) for k in a["p"]]):
+                    got = do_get(d, p)
+                    if got != _canon(a["v"]):
+                        return [("GetSeesSet", "get:GetSeesSet:set-through-scalar-prefix",
+                                 {"path": p, "got": got, "config": copy.deepcopy(d)})]
+            ex2 = do_exit(obj)
+            if ex2 is not None:
+                return [("ExitRaised", "exit:ExitRaised:set-through-scalar-prefix", {"raised": repr(ex2)[:200]})]
+            if d != to_py(cur):
+                return [("ExitRestores", "exit:ExitRestores:set-through-scalar-prefix",
+                         {"config": copy.deepcopy(d), "expected": to_py(cur)})]
+        elif d != to_py(cur):
             kept = d == to_py(last["pc"])
             through_text = has_text(cur) or "text-value" in feats(last["asgs"])
             sig = ("set:raise-midway:earlier-assignments-kept" + (":text-scalar-on-the-path" if through_text else "")) if kept \
@@ -443,8 +459,7 @@ def sig_of_reject(rec, clause):
     if rec["kind"] == "hist":
         if clause == "FailedSetKeepsEarlierAssignments":
             return "set:raise-midway:earlier-assignments-kept"
-        asgs = [a for e in rec["ev"] if e["op"] == "set" for a in e["asgs"]]
-        return "history:%s:%s" % (clause, feats(asgs))
+        return "history:%s" % clause
     return "%s:%s" % (fn_class({"fam": rec["kind"], "prio": rec.get("prio")}), clause)
 
 
@@ -458,6 +473,7 @@ PROPS = ["ExitRestores", "ExitNeverRaises", "FailedSetIsAtomic", "FailedRollback
 FN_INVS = ["UpdateObeysContract", "NewDefaultsRule", "MergeRule", "EnvRule"]
 SMALL_PATHS = '{<<"a">>, <<"a", "b">>, <<"a", "b", "c">>, <<"a-b">>, <<"a_b">>, <<"a_b", "b">>, <<"a", "a-b">>}'
 TINY_PATHS = '{<<"a">>, <<"a", "b">>, <<"a-b">>, <<"a_b">>, <<"a_b", "b">>}'
+TEXT_PATHS = '{<<"a">>, <<"a", "b">>, <<"a", "a-b">>, <<"c">>}'
 
 
 LEAF, TEXT, DICT = '{"leaf"}', '{"leaf", "strz", "stra"}', '{"leaf", "dict"}'
@@ -555,7 +571,7 @@ def run(ctx):
         runs = [("StdPaths", 2, 2, LEAF, "design+states: 2 assignments/call, nesting 2"),
                 ("StdPaths", 1, 4, LEAF, "design+states: 1 assignment/call, nesting 4"),
                 (TINY_PATHS, 2, 2, DICT, "design+states: mapping values, 2 assignments/call, nesting 2"),
-                (TINY_PATHS, 2, 2, TEXT, "design+states: text values, 2 assignments/call, nesting 2"),
+                (TEXT_PATHS, 2, 2, TEXT, "design+states: text values, 2 assignments/call, nesting 2"),
                 ("StdPaths", 1, 3, TEXT, "design+states: text values, 1 assignment/call, nesting 3"),
                 (TINY_PATHS, 2, 3, LEAF, "design+states: 2 assignments/call, nesting 3")]
         cap = 250000
@@ -715,6 +731,22 @@ def selftest(ctx):
                 record = False
             self._assign(keys[1:], value, d[key], path, record=record)
 
+    def assign_overwrites_scalar(self, keys, value, d, path=(), record=True):   # mutant 9: update()'s rule for placeholders, undo entry still "insert"
+        key = C.canonical_name(keys[0], d)
+        path = path + (key,)
+        if len(keys) == 1:
+            entry = ("replace", path, d[key]) if key in d else ("insert", path, None)
+            d[key] = value
+            if record:
+                self._record.append(entry)
+        else:
+            if key not in d or d[key] is None or not isinstance(d[key], dict):
+                d[key] = {}
+                if record:
+                    self._record.append(("insert", path, None))
+                record = False
+            self._assign(keys[1:], value, d[key], path, record=record)
+
     def init_no_rollback(self, arg=None, config=None, lock=C.config_lock, **kwargs):   # mutant 8: dask before 485c550 - no rollback when an assignment raises
         if config is None:
             config = C.global_config
@@ -757,6 +789,7 @@ def selftest(ctx):
                ("_assign records the raw instead of the canonical key", "_assign", assign_raw_key),
                ("_assign appends the undo entry before the assignment (pre-52c0f2a)", "_assign", assign_record_first),
                ("set.__init__ does not roll back when an assignment raises (pre-485c550)", "__init__", init_no_rollback),
+               ("_assign overwrites a scalar prefix with a section but records an insert", "_assign", assign_overwrites_scalar),
                ("update(priority='old') overwrites existing scalars", "update", update_old_loses),
                ("collect_env does not lower-case names", "collect_env", collect_env_nolower)]
     for name, where, fn in mutants:
